@@ -563,7 +563,7 @@ class C14(Check):
                     lines.insert(i, [1, [rng.randint(0, 4) for _ in range(rng.randint(1, 5))]])
         return {"kind": "taillard", "spec": spec, "comments": c, "lines": lines, "malformed": malformed,
                 "seed": rng.randrange(10 ** 9), "meta": rand_meta(rng),
-                "name": rng.choice([None, None, "given name"])}
+                "name": rng.choice([None, None, "given name", "given name", ""])}   # "" is a name too
 
     def gen_sched(self, rng):
         spec = gen_spec(rng, corners=False, flexible=(None if rng.random() < 0.3 else False))
